@@ -186,3 +186,17 @@ func BadGotoLoop(xs []int, v int) int {
 found:
 	return k
 }
+
+// a call of a function that returns a closure
+func BadCurriedCall(k int) int {
+	f := MakeScale(Dbl{}, k)
+	return f(10)
+}
+
+// comma-ok assertion to a concrete type
+func BadAssertOk(s Scaler) int {
+	if d, ok := s.(Dbl); ok {
+		return d.Scale(1)
+	}
+	return 0
+}
